@@ -438,8 +438,14 @@ def check(prop, tier, workers, runs_override=None, verif_seed=0, max_wall=None):
                 pr.join(2.0)
                 if pr.is_alive():
                     pr.kill()
+                    pr.join(2.0)
             except Exception:  # noqa: BLE001
                 pass
+        # the scratch directories of the (terminated) workers and our own
+        import shutil as _sh
+
+        for pid in [pr.pid for pr in procs if pr.pid] + [os.getpid()]:
+            _sh.rmtree(f"/dev/shm/jade-verif-{pid:07d}", ignore_errors=True)
     for (p, what), n in sorted(known_hits.items()):
         print(f"KNOWN-FINDING: property={p} {what} ({n} runs)", flush=True)
     wall = time.time() - t_start
